@@ -226,7 +226,8 @@ impl<C: FieldCfg> Add for SymF<C> {
         if o.k == 0 && o.sh == 0 {
             return self;
         }
-        Self::node(Node::Add(self.h(), o.h()), sh)
+        let (a, b) = if self.h() <= o.h() { (self.h(), o.h()) } else { (o.h(), self.h()) };
+        Self::node(Node::Add(a, b), sh)
     }
 }
 impl<C: FieldCfg> Sub for SymF<C> {
@@ -272,7 +273,8 @@ impl<C: FieldCfg> Mul for SymF<C> {
                 return Self::c(1);
             }
         }
-        Self::node(Node::Mul(self.h(), o.h()), sh)
+        let (a, b) = if self.h() <= o.h() { (self.h(), o.h()) } else { (o.h(), self.h()) };
+        Self::node(Node::Mul(a, b), sh)
     }
 }
 impl<C: FieldCfg> Neg for SymF<C> {
@@ -431,8 +433,12 @@ impl<C: FieldCfg> Serialize for SymF<C> {
 }
 impl<'de, C: FieldCfg> Deserialize<'de> for SymF<C> {
     fn deserialize<D: Deserializer<'de>>(d: D) -> Result<Self, D::Error> {
-        let v = u64::deserialize(d)?;
-        let fresh = with_arena(|a| a.deser_fresh);
+        let mut v = u64::deserialize(d)?;
+        let (fresh, monty) = with_arena(|a| (a.deser_fresh, a.deser_monty31));
+        if monty {
+            // canonical = v * (2^32)^-1 mod p
+            v = mulmod(v % C::P, invmod((1u64 << 32) % C::P, C::P), C::P);
+        }
         if fresh {
             let n = with_arena(|a| a.var_names.len());
             Ok(Self::var(format!("d{n}"), v))
